@@ -26,6 +26,9 @@ void my_call_rcu(struct rcu_head *head, void (*func)(struct rcu_head *)) {
 static inline int ended(uint32_t snap, int r) { return snap == 0 || !ropen[r] || rseq[r] != snap; }
 void seq(void) {
   uint64_t x = rt_nondet_u64();             /* arbitrary starting id: covers counter wrap-around */
+#ifdef WRAP_ONLY
+  rt_assume(x + 4 < 4 || (x >= 0x7ffffffffffffffcULL && x <= 0x8000000000000003ULL));   /* ids that wrap (unsigned or signed) within the run */
+#endif
   poll_worker_gp_state.current_state.grace_period_id = x;
   poll_worker_gp_state.latest_target.grace_period_id = x;
   for (int k = 0; k < KSTEPS; k++) {
